@@ -29,19 +29,19 @@ def register(claim, not_yet):
           'DTCWTForward, and by comparing the real module with dtcwt.Transform2d on the 20 named pairs and on integer filters.' + TIE + BRK,
           'Lean 4 refinement theorems for the level-1 filters + exact Q(sqrt2) correspondence + numpy dtcwt oracle', 'DESIGN.md §4 C03', 'level >= 2 refinement is correspondence/oracle-decided: partial.')
     claim('C04',
-          'Proved: c2q(q2c(y)) = y on every even-sized image from 2*s*s = 1 alone; the even-extension rule; LEVEL 1 in full: filtering with a symmetric odd-length filter commutes with the '
-          'half-sample symmetric extension at every integer position (xt_colfilter), hence for every pair of symmetric odd analysis filters and synthesis filters meeting the finite condition '
-          'PR1, colfilter g0 (colfilter h0 x) + colfilter g1 (colfilter h1 x) = x for columns of every length (colfilter_pr) and inv_j1(fwd_j1(x)) = x for the implementation model (row/column '
-          'filtering with prep_filt buffers, q2c/c2q packing, crop rule) on every even-sized image (level1_pr); the shipped legall table meets PR1 exactly over Q. LEVELS >= 2 in full: with tree a '
-          'the time reverse of tree b (nothing else) the symmetric extension of the output of coldfilt / colifilt is the line operator applied to the symmetric extension of the input at EVERY integer '
-          'position (C04Q.xt_coldfilt, xt_colifilt: all even filter lengths, both highpass flags, both parities of m/2); hence every bank that is perfect-reconstruction on the integer line (PRq; enough to '
-          'check at the four output phases, prq_of_residues; an asymmetric rational 4-tap bank meets it exactly) reconstructs every column whose length is a positive multiple of 4, however short '
-          '(qshift_pr), and inv_j2plus(fwd_j2plus(x)) = x for the implementation model on every image with sides positive multiples of 4 (level2_pr). PRq of the five shipped float tables is a '
-          'hypothesis about filter values: measured on every run (residual <= 3e-16), tree a = reverse(tree b) exactly (also C18). The composition over the pyramid (odd-size replication, multiple-of-4 extension, '
-          'crops) and the non-dyadic level-1 tables (PR1 to 2^-40, C18) are decided by DTCWTInverse(DTCWTForward(x)) on the real code for all 20 named pairs constructed by name, J up to 5, sizes 2..44 incl. '
-          'odd and non-multiples of 4, with the reference package own round-trip error as yardstick, plus the exact correspondence of analysis and synthesis ops.' + TIE + BRK,
-          'Lean 4 theorems (level-1 and level>=2 perfect reconstruction of the implementation models from line-PR hypotheses, quad/complex round trip, extension) + exact correspondence + round-trip oracle on all 20 pairs', 'DESIGN.md §4 C04',
-          'PR1/PRq of the float tables are measured hypotheses; pyramid composition is oracle-decided: partial.')
+          'Proved for the implementation model, for EVERY number of levels J >= 1 and EVERY image size with at least one row and column (odd sizes, sizes that are not multiples of 4 at any level, images '
+          'far smaller than the filters): DTCWTInverse(DTCWTForward(x)) = x extended to even size with the original in the top-left corner (C04P.dtcwt_pr) - through the odd-size replication, the '
+          'undecimated level 1, the multiple-of-4 padding of every level >= 2, q2c/c2q and the [1:-1] crops of the inverse (crop_extend: the crop undoes the padding; loop_pr: induction over the levels). '
+          'Ingredients, each proved for all lengths: c2q(q2c(y)) = y from 2*s*s = 1; filtering with a symmetric odd-length filter commutes with the half-sample symmetric extension at every integer '
+          'position (xt_colfilter), hence level-1 PR from the finite condition PR1 (colfilter_pr, level1_pr; the shipped legall table meets PR1 exactly over Q); with tree a the time reverse of tree b '
+          '(nothing else) the symmetric extension of the output of coldfilt / colifilt is the line operator applied to the symmetric extension of the input at EVERY integer position (C04Q.xt_coldfilt, '
+          'xt_colifilt: all even filter lengths, both highpass flags, both parities of m/2), hence every bank that is perfect-reconstruction on the integer line (PRq; enough to check at the four output '
+          'phases, prq_of_residues; an asymmetric rational 4-tap bank meets it exactly) reconstructs every column whose length is a positive multiple of 4 (qshift_pr, level2_pr). The hypotheses PR1 / PRq '
+          'are about the VALUES of the shipped float tables: measured on every run (PRq residual <= 3e-16, PR1 to 2^-40 in C18), tree a = reverse(tree b) exactly (also C18). Floating-point rounding and '
+          'the layouts are decided by DTCWTInverse(DTCWTForward(x)) on the real code for all 20 named pairs constructed by name, J up to 5, sizes 2..44 incl. odd and non-multiples of 4, with the reference '
+          'package own round-trip error as yardstick, plus the exact correspondence of analysis and synthesis ops and both modules.' + TIE + BRK,
+          'Lean 4 theorems (whole-pyramid perfect reconstruction of the implementation model for every J and size, from line-PR hypotheses on the filters) + exact correspondence + round-trip oracle on all 20 pairs', 'DESIGN.md §4 C04',
+          'PR1/PRq of the float tables are measured hypotheses; rounding is measured: partial.')
     claim('C05',
           'Proved for all lengths, filters, cotangents: strided correlation and transposed convolution are mutual adjoints; AFB1D.backward in mode zero (sfb1d + crop) satisfies '
           '<forward x, g> = <x, backward g>, and in periodization for every length N >= 1 (odd included: the gradient of the repeated last sample is folded back) and even L <= N + N%2 '
